@@ -102,7 +102,31 @@ def compact(e):
 
 
 def suite_of(name):
+    name = name.split("@")[0]
     return re.sub(r"[-0-9s]+$", "", re.sub(r"-\d+(-\w+)?$", "", name)) or name
+
+
+LOST_REMOVE_SIG = "actively-persisted-store:remove-only-transaction-not-persisted"
+
+
+def remove_only_tx_before(name, evs, idx):
+    """History class of a rejected trace: the store keeps values actively persisted and, before the rejected
+    event, a writing transaction was committed whose only effective calls were successful Remove()s.
+    (Conservative: any Update/Upsert session or successful Encode counts as another kind of change.)"""
+    if not name.endswith("@active"):
+        return False
+    removes = others = 0
+    for e in evs[:idx]:
+        k = e["ev"]
+        if k == "Tx":
+            if removes and not others and e["ok"]:
+                return True
+            removes = others = 0
+        elif k == "Remove" and e["ok"]:
+            removes += 1
+        elif (k == "Encode" and e["ok"]) or (k == "Begin" and e["got"] and e["api"] in ("Update", "Upsert")):
+            others += 1
+    return False
 
 
 def action_coverage(out):
@@ -134,7 +158,7 @@ def run(c):
     # 2. real code -> traces
     binp = c.build("stream")
     traces, stats = [], []
-    for suite in ("sizes", "programs", "readers", "random"):
+    for suite in ("sizes", "programs", "repro", "readers", "random"):
         out = os.path.join(c.scratch, suite + ".ndjson")
         p = c.run([binp, "run", c.datadir("data-" + suite), out, suite], timeout=c.pick(600, 3000))
         try:
@@ -152,7 +176,10 @@ def run(c):
             x["index"], x["trace"], json.dumps(compact(full[x["trace"]][x["index"]]) if x["index"] >= 0 else None)[:1200])
         if x["invariant"]:
             what += " (invariant %s)" % x["invariant"]
-        c.report("trace-rejected:%s:%s%s" % (suite_of(x["trace"]), ev.get("ev"), ":" + x["invariant"] if x["invariant"] else ""),
+        sig = "trace-rejected:%s:%s%s" % (suite_of(x["trace"]), ev.get("ev"), ":" + x["invariant"] if x["invariant"] else "")
+        if x["index"] >= 0 and remove_only_tx_before(x["trace"], full[x["trace"]], x["index"]):
+            sig = LOST_REMOVE_SIG
+        c.report(sig,
                  what, dict(trace=x["trace"], events=full[x["trace"]][:x["index"] + 1][-60:], rejected_index=x["index"], tlc=x["tlc_tail"]))
     stuck = sorted(n for n, s in ends.items() if s == {True})
     for n in stuck:
